@@ -32,7 +32,11 @@ func c17Cred(r *Rng, attr string) *ACred {
 			l = &ALit{DT: xsdNS + dt, Kind: "str", Canon: "s" + fmt.Sprint(r.Intn(100000)), JSON: "s"}
 			l.JSON = l.Canon
 		}
-		c.Fields = append(c.Fields, CField{Name: fmt.Sprintf("fld%d", i), DT: dt, JSON: l.JSON, Kind: l.Kind, Canon: l.Canon})
+		name := fmt.Sprintf("fld%d", i)
+		if name == "fld1" && c17Rename != "" {
+			name = c17Rename
+		}
+		c.Fields = append(c.Fields, CField{Name: name, DT: dt, JSON: l.JSON, Kind: l.Kind, Canon: l.Canon})
 	}
 	c.Fields = append(c.Fields, CField{Name: "addr.city9", DT: "integer", JSON: RawNum("777"), Kind: "int", Canon: "777", Nested: true})
 	c.SerAttr = attr
@@ -48,7 +52,16 @@ func c17Cred(r *Rng, attr string) *ACred {
 
 var c17Pool = []string{"fld0", "fld1", "fld2", "fld3", "addr.city9"}
 
+// c17Rename: the name the field "fld1" goes by in the credential at hand - term names are any strings, not only ASCII identifiers
+var c17Rename string
+
 func emitC17(out *Out, r *Rng, attr string, tags []string) {
+	c17Rename = ""
+	if r.Chance(35) {
+		c17Rename = r.Pick([]string{"âge", "поле", "名前", "fld-1", "fld_1", "Fld1", "f~1", "prénom", "f1!", "ﬁeld"})
+		attr = strings.ReplaceAll(attr, "fld1", c17Rename)
+		tags = append(append([]string{}, tags...), "renamed-field")
+	}
 	c := c17Cred(r, attr)
 	merklize.SetDocumentLoader(c.loader())
 	vc, err := c.W3C()
@@ -84,7 +97,13 @@ func emitC17(out *Out, r *Rng, attr string, tags []string) {
 		}
 	}
 	schema := c.typeContext()
-	lookups := append(append([]string{}, c17Pool...), "unknownField", "", "fld0.x")
+	pool := append([]string{}, c17Pool...)
+	for i := range pool {
+		if pool[i] == "fld1" && c17Rename != "" {
+			pool[i] = c17Rename
+		}
+	}
+	lookups := append(append([]string{}, pool...), "unknownField", "", "fld0.x")
 	for _, field := range lookups {
 		for _, byIRI := range []bool{false, true} {
 			tn := c.TypeName
@@ -149,7 +168,7 @@ func emitC17(out *Out, r *Rng, attr string, tags []string) {
 		var why []string
 		if cerr2 == nil && cerr == nil {
 			s2 := cl2.RawSlotsAsInts()
-			for _, field := range c17Pool {
+			for _, field := range pool {
 				idx, gerr := jsonproc.Parser{}.GetFieldSlotIndex(field, c.TypeName, schema)
 				fv, known := fields[field].(string)
 				if gerr == nil && known && idx >= 0 && idx < 8 && s2[idx].String() != fv {
